@@ -4,11 +4,12 @@ use crate::support::*;
 use educe::Educe;
 use core::cmp::Ordering;
 #[derive(Educe)]
-#[educe(Eq, PartialEq, Ord)]
-pub enum T { C { #[educe(Ord(method = "m_cmp"))] x: A<0>, #[educe(Ord(ignore(true)))] r#type: A<0> }, Unit(A<0>) }
-impl PartialOrd for T { fn partial_cmp(&self, o: &Self) -> Option<Ordering> { Some(::core::cmp::Ord::cmp(self, o)) } }
-pub fn values() -> Vec<T> { vec![T::C { x: A(0), r#type: A(0) }, T::C { x: A(0), r#type: A(1) }, T::C { x: A(0), r#type: A(7) }, T::C { x: A(1), r#type: A(0) }, T::C { x: A(1), r#type: A(1) }, T::C { x: A(1), r#type: A(7) }, T::C { x: A(7), r#type: A(0) }, T::C { x: A(7), r#type: A(1) }, T::C { x: A(7), r#type: A(7) }, T::Unit(A(0)), T::Unit(A(1)), T::Unit(A(7))] }
-pub fn show(x: &T) -> String { #[allow(unused_variables)] match x { T::C { x: p0, r#type: p1 } => format!("C({},{})", sv(p0), sv(p1)), T::Unit(p0) => format!("Unit({})", sv(p0)) } }
-pub fn o_disc(x: &T) -> i128 { match x { T::C { x: _, r#type: _ } => 0, T::Unit(_) => 1 } }
-pub fn o_cmp(a: &T, b: &T) -> Ordering { match (a, b) { (T::C { x: a0, r#type: a1 }, T::C { x: b0, r#type: b1 }) => { let c = m_cmp(a0, b0); if c != Ordering::Equal { return c; } Ordering::Equal }, (T::Unit(a0), T::Unit(b0)) => { let c = ::core::cmp::Ord::cmp(a0, b0); if c != Ordering::Equal { return c; } Ordering::Equal }, _ => o_disc(a).cmp(&o_disc(b)) } }
-pub fn run(out: &mut Out) { let vs = values(); for (i, a) in vs.iter().enumerate() { for (j, b) in vs.iter().enumerate() { let e = o_cmp(a, b); let g = ::core::cmp::Ord::cmp(a, b); out.check(g == e, "ord_7", "cmp", || format!("cmp({}, {}) = {:?} expected {:?}", show(a), show(b), g, e)); } } }
+#[repr(i64)]
+#[educe(Eq, PartialOrd, Ord, PartialEq)]
+pub enum T { B, None, Zed(#[educe(Ord(rank("4"), method = m_cmp))] A<0>) = 100 }
+
+pub fn values() -> Vec<T> { vec![T::B, T::None, T::Zed(A(0)), T::Zed(A(1)), T::Zed(A(7))] }
+pub fn show(x: &T) -> String { #[allow(unused_variables)] match x { T::B => format!("B()"), T::None => format!("None()"), T::Zed(p0) => format!("Zed({})", sv(p0)) } }
+pub fn o_disc(x: &T) -> i128 { match x { T::B => 0, T::None => 1, T::Zed(_) => 100 } }
+pub fn o_cmp(a: &T, b: &T) -> Ordering { match (a, b) { (T::B, T::B) => {  Ordering::Equal }, (T::None, T::None) => {  Ordering::Equal }, (T::Zed(a0), T::Zed(b0)) => { let c = m_cmp(a0, b0); if c != Ordering::Equal { return c; } Ordering::Equal }, _ => o_disc(a).cmp(&o_disc(b)) } }
+pub fn run(out: &mut Out) { let vs = values(); for (i, a) in vs.iter().enumerate() { for (j, b) in vs.iter().enumerate() { let e = o_cmp(a, b); let g = ::core::cmp::Ord::cmp(a, b); out.check(g == e, "ord_7", "cmp", || format!("cmp({}, {}) = {:?} expected {:?}", show(a), show(b), g, e)); let g2 = ::core::cmp::PartialOrd::partial_cmp(a, b); out.check(g2 == Some(e), "ord_7", "partial_is_some_cmp", || format!("partial_cmp({}, {}) = {:?} expected Some({:?})", show(a), show(b), g2, e)); } } }
